@@ -85,7 +85,10 @@ fn unique(ty: u8, index: u16, serial: u32, global: u32, fsel: u8, timed: bool) -
     let time = if ty == 7 || !timed {
         None
     } else {
-        Some((1_000_000 + (global as u64 * 7919) % 131_071, global % 5 != 0))
+        Some((
+            1_000_000 + (global as u64 * 7919) % 131_071,
+            global % 5 != 0,
+        ))
     };
     Rec { value, flags, time }
 }
@@ -568,5 +571,6 @@ pub fn run<C: Codec>(tier: Tier) -> i32 {
 }
 
 pub fn replay<C: Codec>(text: &str, known: &[Known]) -> Option<i32> {
-    replay_file::<C, Converge>(text, known).or_else(|| replay_file::<C, super::c02t::Tcp>(text, known))
+    replay_file::<C, Converge>(text, known)
+        .or_else(|| replay_file::<C, super::c02t::Tcp>(text, known))
 }
